@@ -89,6 +89,17 @@ def name_of(word):
     return re.split(r'\.', word)[0]
 
 
+def value_of(word):
+    import re
+    return re.split(r'\.', word)[1]
+
+
+def ill_typed(text):
+    """a value that is not of the setting's type (Config.from_dict's rule, applied to config strings since f7816a7)"""
+    return ((name_of(text) in BOOLS and value_of(text) not in ('True', 'False', 'None'))
+            or (name_of(text) in INTS and value_of(text) != 'None' and not in_re(value_of(text), r'[0-9]+')))
+
+
 def _unknown_units():
     name = Str(r'[A-Za-z_][A-Za-z_0-9]*', ascii_only=True)
     return [
@@ -99,8 +110,8 @@ def _unknown_units():
         Unit(name='C13/unknown_setting[name.value]', prop='C13', target='props.c13:make_config',
              params={'text': Cat(name, Const('.'), Str(r'[A-Za-z0-9]+', ascii_only=True))},
              ghost={},
-             ensures=[('only_known_names', lambda text: name_of(text) in ALL)],
-             raises={ValueError: lambda text: not (name_of(text) in ALL and name_of(text) not in ('default_ns', 'default_ew')),
+             ensures=[('only_known_names_and_well_typed_values', lambda text: name_of(text) in ALL and not ill_typed(text))],
+             raises={ValueError: lambda text: not (name_of(text) in ALL and name_of(text) not in ('default_ns', 'default_ew')) or ill_typed(text),
                      __import__('pytrs').parser.config.DefaultNSError: True, __import__('pytrs').parser.config.DefaultEWError: True}),
     ]
 
